@@ -1,0 +1,53 @@
+//go:build verif
+
+// Contracts for package jt1078, read by /verif/govc. Comment-only; never compiled into the library.
+package jt1078
+
+//@ spec marker(d []byte) bool = d[0] == 0x30 && d[1] == 0x31 && d[2] == 0x63 && d[3] == 0x64
+//@ spec dtype(d []byte) byte = d[15] >> 4
+//@ spec hdr(d []byte) int = ite(dtype(d) <= 2, 30, ite(dtype(d) == 4, 18, 26))
+//@ spec headok(d []byte) bool = len(d) >= 16 && marker(d) && len(d) >= hdr(d)
+
+//@ func (*Packet).decodeHead
+//@   mode contract
+//@   modifies *p
+//@   requires recv: p != nil
+//@   ensures C17.short: len(data) < 16 ==> iserr(result, ErrHeaderLength2Short)
+//@   ensures C17.marker: len(data) >= 16 && !marker(data) ==> iserr(result, ErrUnqualifiedData)
+//@   ensures C17.short2: len(data) >= 16 && marker(data) && len(data) < hdr(data) ==> iserr(result, ErrHeaderLength2Short)
+//@   ensures C17.ok: iff(result == nil, headok(data))
+//@   ensures C17.headEnd: result == nil ==> p.headEnd == hdr(data)
+//@   ensures C17.flagV: result == nil ==> p.Flag.V == data[4] >> 6
+//@   ensures C17.flagP: result == nil ==> p.Flag.P == (data[4] >> 5) & 1
+//@   ensures C17.flagX: result == nil ==> p.Flag.X == (data[4] >> 4) & 1
+//@   ensures C17.flagCC: result == nil ==> p.Flag.CC == data[4] & 15
+//@   ensures C17.flagM: result == nil ==> p.Flag.M == data[5] >> 7
+//@   ensures C17.flagPT: result == nil ==> p.Flag.PT == data[5] & 127
+//@   ensures C17.seq: result == nil ==> p.Seq == be16(data, 6)
+//@   ensures C17.channel: result == nil ==> p.LogicChannel == data[14]
+//@   ensures C17.dataType: result == nil ==> p.DataType == dtype(data)
+//@   ensures C17.subcontract: result == nil ==> p.SubcontractType == data[15] & 15
+//@   ensures C17.timestamp: result == nil ==> p.Timestamp == ite(dtype(data) != 4, be64(data, 16), 0)
+//@   ensures C17.iframe: result == nil ==> p.LastIFrameInterval == ite(dtype(data) <= 2, be16(data, 24), 0)
+//@   ensures C17.frame: result == nil ==> p.LastFrameInterval == ite(dtype(data) <= 2, be16(data, 26), 0)
+//@   ensures C17.bodyLen: result == nil ==> p.DataBodyLen == be16(data, hdr(data) - 2)
+//@   ensures C17.id: result == nil ==> len(p.ID) == 4 && p.ID[0] == 0x30 && p.ID[1] == 0x31 && p.ID[2] == 0x63 && p.ID[3] == 0x64
+
+//@ func (*Packet).Decode
+//@   modifies *p
+//@   requires recv: p != nil
+//@   ensures C17.short: len(data) < 16 ==> iserr(err, ErrHeaderLength2Short)
+//@   ensures C17.marker: len(data) >= 16 && !marker(data) ==> iserr(err, ErrUnqualifiedData)
+//@   ensures C17.short2: len(data) >= 16 && marker(data) && len(data) < hdr(data) ==> iserr(err, ErrHeaderLength2Short)
+//@   ensures C17.shortBody: headok(data) && len(data) < hdr(data) + int(be16(data, hdr(data) - 2)) ==> iserr(err, ErrBodyLength2Short)
+//@   ensures C17.ok: iff(err == nil, headok(data) && len(data) >= hdr(data) + int(be16(data, hdr(data) - 2)))
+//@   ensures C17.body: err == nil ==> ptr(p.Body) == ptr(data) + hdr(data) && len(p.Body) == int(be16(data, hdr(data) - 2))
+//@   ensures C17.remain: err == nil && len(data) > hdr(data) + len(p.Body) ==> ptr(remainData) == ptr(data) + hdr(data) + len(p.Body) && len(remainData) == len(data) - hdr(data) - len(p.Body)
+//@   ensures C17.remainNil: err == nil && len(data) == hdr(data) + len(p.Body) ==> remainData == nil
+//@   ensures C17.input: forall(k, 0, len(data), data[k] == old(data[k]))
+//@   ensures C17.seq: err == nil ==> p.Seq == be16(data, 6)
+//@   ensures C17.dataType: err == nil ==> p.DataType == dtype(data)
+//@   ensures C17.timestamp: err == nil ==> p.Timestamp == ite(dtype(data) != 4, be64(data, 16), 0)
+//@   ensures C17.iframe: err == nil ==> p.LastIFrameInterval == ite(dtype(data) <= 2, be16(data, 24), 0)
+//@   ensures C17.frame: err == nil ==> p.LastFrameInterval == ite(dtype(data) <= 2, be16(data, 26), 0)
+//@   ensures C17.bodyLen: err == nil ==> p.DataBodyLen == be16(data, hdr(data) - 2)
